@@ -21,6 +21,7 @@ type dbCtx struct {
 	kind   string
 	addr   string
 	stores map[int]iface.Store
+	closed map[int]bool // peers that closed (not dropped) this database: a restart reopens it
 }
 
 type evCounter struct {
